@@ -3,7 +3,8 @@ package main
 // Family json (JSON half of C11): caveat sets of every registered kind with valid-UTF-8 text fields
 // are rendered with json.Marshal and read back with json.Unmarshal.
 //
-//   (json.rt (C…))         impl: ok (C'…) | err:unregistered | err:marshal-other | err:unmarshal
+//   (json.rt (C…))         impl: ok (C'…) | err:unregistered | err:tooLong (a GoogleUserID of more than 128
+//                          characters is refused by the reader) | err:marshal-other | err:unmarshal
 //   (const same)           declarative oracle: the set read back clears ~10 requests (actions within
 //                          the five defined bits) exactly as the original: same | differs:<request>
 //   (const deterministic)  json.Marshal of the same value (maps rebuilt in fresh insertion orders)
@@ -258,6 +259,15 @@ func (r *Rng) jCavKind(o *Out, k int, depth int) macaroon.Caveat {
 		return &u
 	case 24:
 		z := new(big.Int).SetBytes(r.Bytes(pick(r, []int{0, 1, 7, 8, 9, 21})))
+		if r.Chance(1, 4) {
+			// around the reader's limit of 128 characters; half of them as the MessagePack decoder delivers them
+			u := auth.GoogleUserID(*r.jGoogleBoundary(o))
+			if r.Bool() {
+				o.count("google.msgpack-born")
+				return msgpackBorn(&u)
+			}
+			return &u
+		}
 		if r.Chance(1, 5) {
 			// a negative big.Int is a legal Go value: JSON keeps the sign, the model (like the wire) sees the magnitude
 			z.Neg(z)
@@ -553,7 +563,7 @@ func famJSON(r *Rng, o *Out, tier string) {
 			}
 			text = b
 			if err := json.Unmarshal(b, &cs2); err != nil {
-				return "err:unmarshal"
+				return jsonReadClass(err)
 			}
 			return "ok " + sxCavs(cs2.Caveats)
 		})
@@ -646,7 +656,7 @@ func famJSON(r *Rng, o *Out, tier string) {
 			res2 := guard(func() string {
 				var cs3 macaroon.CaveatSet
 				if err := json.Unmarshal(b2, &cs3); err != nil {
-					return "err:unmarshal"
+					return jsonReadClass(err)
 				}
 				return "ok " + sxCavs(cs3.Caveats)
 			})
@@ -672,6 +682,8 @@ func famJSON(r *Rng, o *Out, tier string) {
 			one([]macaroon.Caveat{outer})
 		}
 	}
+	// Google ids around the reader's 128-character limit
+	famJSONGoogleBoundary(r, o, one, reps*4)
 	// random sets
 	for i := 0; i < n; i++ {
 		nc := r.Intn(6)
@@ -740,6 +752,193 @@ func famJSON(r *Rng, o *Out, tier string) {
 	}
 }
 
+// jsonReadClass: the class of a json.Unmarshal error.  The one the model predicts is the refusal of a
+// GoogleUserID whose text has more than 128 characters ("bad bigint: too long"); anything else is
+// err:unmarshal, which the model never answers.
+func jsonReadClass(err error) string {
+	if strings.Contains(err.Error(), "bad bigint: too long") {
+		return "err:tooLong"
+	}
+	return "err:unmarshal"
+}
+
+func pow10(k int) *big.Int { return new(big.Int).Exp(big.NewInt(10), big.NewInt(int64(k)), nil) }
+
+// digitsN: a random number of exactly k decimal digits
+func (r *Rng) digitsN(k int) *big.Int {
+	var sb strings.Builder
+	sb.WriteByte(byte('1' + r.Intn(9)))
+	for i := 1; i < k; i++ {
+		sb.WriteByte(byte('0' + r.Intn(10)))
+	}
+	z, _ := new(big.Int).SetString(sb.String(), 10)
+	return z
+}
+
+// jGoogleBoundary: magnitudes around the reader's limit of 128 characters (10^128)
+func (r *Rng) jGoogleBoundary(o *Out) *big.Int {
+	one := big.NewInt(1)
+	var z *big.Int
+	var tag string
+	switch r.Intn(10) {
+	case 0:
+		z, tag = pow10(126), "127digits.min"
+	case 1:
+		z, tag = new(big.Int).Sub(pow10(127), one), "127digits.max"
+	case 2:
+		z, tag = pow10(127), "128digits.min"
+	case 3:
+		z, tag = r.digitsN(128), "128digits.random"
+	case 4:
+		z, tag = new(big.Int).Sub(pow10(128), one), "128digits.max"
+	case 5:
+		z, tag = pow10(128), "129digits.min"
+	case 6:
+		z, tag = new(big.Int).Add(pow10(128), one), "129digits.min+1"
+	case 7:
+		z, tag = r.digitsN(129), "129digits.random"
+	case 8:
+		z, tag = r.digitsN(127), "127digits.random"
+	default:
+		z, tag = r.digitsN(300), "300digits"
+	}
+	o.count("google." + tag)
+	return z
+}
+
+// msgpackBorn: the caveat as it comes out of the MessagePack decoder (that door has no length limit)
+func msgpackBorn(c macaroon.Caveat) macaroon.Caveat {
+	if b, err := macaroon.NewCaveatSet(c).MarshalMsgpack(); err == nil {
+		if d, err := macaroon.DecodeCaveats(b); err == nil && len(d.Caveats) == 1 {
+			return d.Caveats[0]
+		}
+	}
+	panic("harness: a Google id did not survive MessagePack")
+}
+
+// famJSONGoogleBoundary: Google ids around 10^128 - Go-built and MessagePack-born through the whole round
+// trip (alone, inside a set, inside conditionals, next to an unregistered caveat in either order: the
+// marshalling error wins), JSON-born as text handed to the reader (by name, by number, inside a
+// conditional).  Negative ids: the model holds the magnitude (what the wire carries); the reader counts the
+// minus sign, so for 10^127 <= |n| < 10^128 it refuses what the model accepts - those are judged by the
+// (const explicit) line alone: an explicit error, never a different value.
+func famJSONGoogleBoundary(r *Rng, o *Out, one func([]macaroon.Caveat), rounds int) {
+	for i := 0; i < rounds; i++ {
+		z := r.jGoogleBoundary(o)
+		u := auth.GoogleUserID(*z)
+		var g macaroon.Caveat = &u
+		if r.Bool() {
+			g = msgpackBorn(g)
+			o.count("google.msgpack-born")
+		} else {
+			o.count("google.go-built")
+		}
+		unreg := func() macaroon.Caveat {
+			return &macaroon.UnregisteredCaveat{Type: 1 << 40, RawMsgpack: []byte{0xa1, 'x'}}
+		}
+		switch ctx := r.Intn(8); ctx {
+		case 0, 1:
+			o.count("google.ctx.alone")
+			one([]macaroon.Caveat{g})
+		case 2:
+			o.count("google.ctx.in-set")
+			one([]macaroon.Caveat{r.jCavKind(o, r.Intn(nJSONKinds-1), 1), g, r.jCavKind(o, r.Intn(nJSONKinds-1), 1)})
+		case 3:
+			o.count("google.ctx.nested1")
+			one([]macaroon.Caveat{&resset.IfPresent{Ifs: macaroon.NewCaveatSet(r.jCavKind(o, 25, 0), g), Else: r.jMask()}})
+		case 4:
+			o.count("google.ctx.nested2")
+			in := &resset.IfPresent{Ifs: macaroon.NewCaveatSet(g), Else: r.jMask()}
+			one([]macaroon.Caveat{&flyio.IsMember{}, &resset.IfPresent{Ifs: macaroon.NewCaveatSet(in, r.jCavKind(o, 0, 0)), Else: r.jMask()}})
+		case 5:
+			o.count("google.ctx.unregistered-after")
+			one([]macaroon.Caveat{g, unreg()})
+		case 6:
+			o.count("google.ctx.unregistered-before")
+			one([]macaroon.Caveat{unreg(), g})
+		default:
+			o.count("google.ctx.unregistered-nested")
+			one([]macaroon.Caveat{&resset.IfPresent{Ifs: macaroon.NewCaveatSet(g), Else: 1}, &resset.IfPresent{Ifs: macaroon.NewCaveatSet(unreg()), Else: 1}})
+		}
+	}
+	// JSON-born: the decimal text handed to the reader (the second half of the round trip on its own)
+	for i := 0; i < rounds; i++ {
+		z := r.jGoogleBoundary(o)
+		u := auth.GoogleUserID(*z)
+		var text, op string
+		switch r.Intn(4) {
+		case 0:
+			o.count("google.json-born.by-number")
+			text = `[{"type":"25","body":` + z.String() + `}]`
+			op = "(json.rt " + sxCavs([]macaroon.Caveat{&u}) + ")"
+		case 1:
+			o.count("google.json-born.nested")
+			text = `[{"type":"IfPresent","body":{"ifs":[{"type":"GoogleUserID","body":` + z.String() + `}],"else":"r"}}]`
+			op = "(json.rt " + sxCavs([]macaroon.Caveat{&resset.IfPresent{Ifs: macaroon.NewCaveatSet(&u), Else: 1}}) + ")"
+		case 2:
+			o.count("google.json-born.spaced")
+			text = " [ {\"body\" :\n\t" + z.String() + " , \"type\" : \"GoogleUserID\" } ] "
+			op = "(json.rt " + sxCavs([]macaroon.Caveat{&u}) + ")"
+		default:
+			o.count("google.json-born.by-name")
+			text = `[{"type":"GoogleUserID","body":` + z.String() + `}]`
+			op = "(json.rt " + sxCavs([]macaroon.Caveat{&u}) + ")"
+		}
+		o.emit(op, guard(func() string {
+			var cs macaroon.CaveatSet
+			if err := json.Unmarshal([]byte(text), &cs); err != nil {
+				return jsonReadClass(err)
+			}
+			return "ok " + sxCavs(cs.Caveats)
+		}))
+	}
+	// negative ids
+	oneB := big.NewInt(1)
+	for _, neg := range []struct {
+		tag  string
+		mag  *big.Int
+		band bool // the minus sign is the 129th character: refused by the reader, accepted by the magnitude-only model
+	}{
+		{"-5", big.NewInt(5), false},
+		{"-(10^126)", pow10(126), false},
+		{"-(10^127-1)", new(big.Int).Sub(pow10(127), oneB), false},
+		{"-(10^127)", pow10(127), true},
+		{"-128digits", r.digitsN(128), true},
+		{"-(10^128-1)", new(big.Int).Sub(pow10(128), oneB), true},
+		{"-(10^128)", pow10(128), false},
+		{"-300digits", r.digitsN(300), false},
+	} {
+		z := new(big.Int).Neg(neg.mag)
+		u := auth.GoogleUserID(*z)
+		o.count("google.negative." + neg.tag)
+		if !neg.band {
+			one([]macaroon.Caveat{&u})
+			one([]macaroon.Caveat{&resset.IfPresent{Ifs: macaroon.NewCaveatSet(&u), Else: 1}})
+			continue
+		}
+		for _, cavs := range [][]macaroon.Caveat{{&u}, {&flyio.IsMember{}, &resset.IfPresent{Ifs: macaroon.NewCaveatSet(&u), Else: 1}}} {
+			o.emit("(const explicit)", guard(func() string {
+				b, err := json.Marshal(&macaroon.CaveatSet{Caveats: cavs})
+				if err != nil {
+					return "err:marshal"
+				}
+				var back macaroon.CaveatSet
+				if err := json.Unmarshal(b, &back); err != nil {
+					if jsonReadClass(err) == "err:tooLong" {
+						return "explicit"
+					}
+					return "err:unmarshal"
+				}
+				// (accepting it would be fine too, as long as the value is the same one - sign included)
+				if b2, err := json.Marshal(&back); err == nil && bytes.Equal(b, b2) {
+					return "explicit"
+				}
+				return "silently-different:" + sxCavs(back.Caveats)
+			}))
+		}
+	}
+}
+
 type jsonCavT struct {
 	Type string          `json:"type"`
 	Body json.RawMessage `json:"body"`
@@ -790,7 +989,7 @@ func jsonVia(r *Rng, route string, cs *macaroon.CaveatSet, text []byte) string {
 			}
 			var m macaroon.Macaroon
 			if err := json.Unmarshal(b, &m); err != nil {
-				return "err:unmarshal"
+				return jsonReadClass(err)
 			}
 			if m.Location != "https://wire.example" {
 				return "err:location-lost"
@@ -837,7 +1036,7 @@ func jsonVia(r *Rng, route string, cs *macaroon.CaveatSet, text []byte) string {
 			back.Caveats = []macaroon.Caveat{&a, &flyio.IsMember{}, nil}
 		}
 		if err := json.Unmarshal(b, &back); err != nil {
-			return "err:unmarshal"
+			return jsonReadClass(err)
 		}
 		return "ok " + sxCavs(back.Caveats)
 	})
